@@ -1,6 +1,8 @@
 #![allow(dead_code)]
+mod alloc;
 mod bridge;
 mod dev;
+mod e3;
 mod engine;
 mod hist;
 mod model;
@@ -13,6 +15,9 @@ mod table;
 mod wexec;
 
 use engine::Tier;
+
+#[global_allocator]
+static GLOBAL: alloc::Counting = alloc::Counting;
 use serde_json::Value;
 
 type CheckFn = fn(Tier) -> i32;
@@ -23,11 +28,16 @@ fn registry() -> Vec<(&'static str, CheckFn, ReplayFn)> {
     vec![
         ("C01", |t| c01_c02::check(c01_c02::Which::C01, t), |v| c01_c02::replay(c01_c02::Which::C01, v)),
         ("C02", |t| c01_c02::check(c01_c02::Which::C02, t), |v| c01_c02::replay(c01_c02::Which::C02, v)),
+        ("C03", c03::check, c03::replay),
         ("C04", c04::check, c04::replay),
         ("C05", c05::check, c05::replay),
         ("C06", c06::check, c06::replay),
+        ("C07", |t| e3::check(e3::Prop::C07, t), |v| e3::replay(e3::Prop::C07, v)),
         ("C09", c09::check, c09::replay),
         ("C10", c10::check, c10::replay),
+        ("C14", c14::check, c14::replay),
+        ("C15", c15::check, c15::replay),
+        ("C17", |t| e3::check(e3::Prop::C17, t), |v| e3::replay(e3::Prop::C17, v)),
         ("C18", c18::check, c18::replay),
         ("C19", c19::check, c19::replay),
     ]
@@ -43,6 +53,14 @@ fn main() {
     let args: Vec<String> = std::env::args().collect();
     if args.len() < 3 {
         usage();
+    }
+    if args[1] == "worker" {
+        // vcheck worker C07|C17 quick|thorough <from> <to>
+        let prop = if args[2] == "C07" { e3::Prop::C07 } else { e3::Prop::C17 };
+        let tier = if args[3] == "quick" { Tier::Quick } else { Tier::Thorough };
+        let from: usize = args[4].parse().unwrap();
+        let to: usize = args[5].parse().unwrap();
+        std::process::exit(e3::worker_main(prop, tier, from, to));
     }
     if args[1] == "replay" {
         std::process::exit(replay(&args[2]));
